@@ -7,6 +7,7 @@ package revision
 
 import (
 	"context"
+	"reflect"
 
 	extv1 "k8s.io/apiextensions-apiserver/pkg/apis/apiextensions/v1"
 	metav1 "k8s.io/apimachinery/pkg/apis/meta/v1"
@@ -153,9 +154,44 @@ func HarnessC16Establish() {
 		zz.Cover("revision-without-package-owner")
 	}
 	e := NewAPIEstablisher(s, "crossplane-system", 10)
+	// snapshots of the objects another owner controls
+	foreignBefore := map[int]map[string]any{}
+	for i, st := range states {
+		if st == zzForeign {
+			foreignBefore[i] = runtime.DeepCopyJSON(s.Doc(zzCRDGroup, zzCRDKind, "", zzCRDNames[i]))
+		}
+	}
+	if zz.Tier() == "thorough" {
+		// thorough: the first attempt may be cut short by an API failure at
+		// any call (validation or establish phase); it is then retried
+		s.FaultAt = zz.Choose("fault.at", 14) - 1
+		s.FaultKind = 1 + zz.Choose("fault.kind", 3)
+	}
 	refs, err := e.Establish(context.Background(), objs, parent, control)
+	mark := 0
+	if s.Faulted {
+		zz.Cover("fault-hit")
+		s.FaultAt = -1
+		for i, before := range foreignBefore {
+			now := s.Doc(zzCRDGroup, zzCRDKind, "", zzCRDNames[i])
+			if control {
+				zz.Assert("foreign-controlled-object-untouched-by-a-failed-attempt", reflect.DeepEqual(before, now))
+			} else {
+				// an inactive revision may add itself as a plain owner; the
+				// object's controller stays who it was
+				zz.Assert("foreign-controller-kept-by-a-failed-attempt", kube.ControllerUID(now) == kube.ControllerUID(before))
+			}
+		}
+		if !control {
+			for _, c := range s.Writes(false) {
+				zz.Assert("inactive-revision-never-creates", c.Verb != kube.VerbCreate)
+			}
+		}
+		mark = len(s.Writes(false))
+		refs, err = e.Establish(context.Background(), objs, parent, control)
+	}
 
-	real := s.Writes(false)
+	real := s.Writes(false)[mark:]
 	if !control {
 		zz.Cover("inactive")
 		for _, c := range real {
